@@ -292,6 +292,12 @@ func strRepeatFunc(_ *ctx.EvalCtx, receiver object.Object, args ...object.Object
 		count = 0
 	}
 
+	// a count that cannot be honoured is an error, not a crash
+	if len(val) > 0 && count > maxStrLen/len(val) {
+		msg := fmt.Sprintf(fail.ErrFuncResultTooLong, "repeat", object.STR_OBJ, maxStrLen)
+		return nil, errors.New(msg)
+	}
+
 	repeated := strings.Repeat(val, count)
 
 	return &object.Str{Value: repeated}, nil
